@@ -144,8 +144,13 @@ def body_long(rep, case):
     p = blob.hex()
     rep.tick("long", key=n, nontrivial=True, sample={"len": n})
     out = sign(p)
-    if out != p + crc.signature(blob).hex():
-        raise Violation("C04/signature-mismatch/long-input", {"len": n, "seed": case["seed"]}, crc.signature(blob).hex(), out[len(p):])
+    tail = out[len(p):] if isinstance(out, str) else ""
+    try:
+        got = bytes.fromhex(tail)
+    except ValueError:
+        got = None
+    if not isinstance(out, str) or out[:len(p)] != p or len(tail) != 8 or got != crc.signature(blob):
+        raise Violation("C04/signature-mismatch/long-input", {"len": n, "seed": case["seed"]}, crc.signature(blob).hex(), tail[:40])
 
 
 def strat_spelling():
